@@ -820,9 +820,12 @@ class Exec:
             for wn, wt in witness.items():
                 s2.witness[wn] = LazySpec(self, wt)     # evaluated where it is used (may mention bound variables)
         v = self.ev(s2, tree)
-        # definitional axioms produced while evaluating the spec (slices, concatenations) are kept
+        # definitional axioms produced while evaluating the spec (slices, concatenations) are kept, and so are
+        # the memoised terms they define (the same expression in code and spec then denotes the same term)
         for h in s2.hyps[before:]:
             st.hyps.append(h)
+        st.memo.update(s2.memo)
+        st.seen |= s2.seen
         return self.truth(v)
 
     # ------------------------------------------------------------------ statements
@@ -872,6 +875,8 @@ class Exec:
             v = self.ev(s2, ast.parse(expr.strip(), mode="eval").body)
             for h in s2.hyps[len(st.hyps):]:
                 st.hyps.append(h)
+            st.memo.update(s2.memo)
+            st.seen |= s2.seen
             st.env[name.strip()] = v
         elif text.startswith("havoc "):
             self.havoc(st, text[6:].strip())
@@ -1579,11 +1584,11 @@ class Exec:
             st.env["yielded"] = SV(t, t.mk(arr, z3.IntVal(0)))
         self.declare_ghosts(st)
         st.old = dict(st.env)
+        self.ghost_do(st, c.entry_ghost, "entry")     # ghost declarations / lets usable in requires
+        st.old = dict(st.env)
         for r in c.requires + c.assumes:
             st.hyps.append(self.spec(st, r))
         self.canaries.append(("requires-satisfiable", list(st.hyps)))
-        self.ghost_do(st, c.entry_ghost, "entry")
-        st.old = dict(st.env)
         return st
 
     def declare_global(self, g):
